@@ -379,12 +379,29 @@ pub fn e2e_case(k: usize, d: &Desc, mode: u8) -> Result<Vec<Finding>, String> {
 /// watcher's start-up announcements the peer is a late joiner and learns the watcher only from
 /// the reply to its own start-up query.
 pub fn e2e_case_gap(k: usize, d: &Desc, mode: u8, gap_ms: u64) -> Result<Vec<Finding>, String> {
+    e2e_case_scoped(k, d, mode, gap_ms, 0)
+}
+
+/// `scope`: 0 = the default constructor; 1 = new_with_scope(V6) on both sides; 2 =
+/// new_with_scope(V4WithInterface(<the interface multicast leaves through>)) on both sides;
+/// 3 = the watcher with V4WithInterface, the peer with the default constructor.
+pub fn e2e_case_scoped(k: usize, d: &Desc, mode: u8, gap_ms: u64, scope: u8) -> Result<Vec<Finding>, String> {
     use simple_mdns::async_discovery::ServiceDiscovery as ADisc;
     use simple_mdns::sync_discovery::ServiceDiscovery as SDisc;
+    use simple_mdns::NetworkScope;
     use std::time::{Duration, Instant};
+    let iface = crate::engine::multicast_interface_v4();
+    let scope_of = |watcher_side: bool| -> Option<NetworkScope> {
+        match scope {
+            1 => Some(NetworkScope::V6),
+            2 => iface.map(NetworkScope::V4WithInterface),
+            3 if watcher_side => iface.map(NetworkScope::V4WithInterface),
+            _ => None,
+        }
+    };
     // odd cases use a service name with capital letters (both sides spell it the same way)
-    let svc = if k % 2 == 1 { format!("_E2E{}M{}._TCP.local", k, mode) } else { format!("_e2e{}m{}._tcp.local", k, mode) };
-    let case = json!({"kind": "e2e", "k": k, "desc": d, "mode": mode, "gap_ms": gap_ms});
+    let svc = if k % 2 == 1 { format!("_E2E{}M{}S{}._TCP.local", k, mode, scope) } else { format!("_e2e{}m{}s{}._tcp.local", k, mode, scope) };
+    let case = json!({"kind": "e2e", "k": k, "desc": d, "mode": mode, "gap_ms": gap_ms, "scope": scope});
     let watcher_desc = Desc { name: format!("watcher{}", k), ips: ["10.8.8.8".to_string()].into_iter().collect(), ports: [7000u16 + k as u16].into_iter().collect(), attrs: BTreeMap::new() };
     let rt = tokio::runtime::Builder::new_multi_thread().worker_threads(2).enable_all().build().map_err(|e| format!("{}", e))?;
     enum W {
@@ -402,17 +419,17 @@ pub fn e2e_case_gap(k: usize, d: &Desc, mode: u8, gap_ms: u64) -> Result<Vec<Fin
     };
     let r = guarded(|| -> Result<Vec<(String, String)>, String> {
         let mut bad = Vec::new();
-        let watcher = if mode == 0 {
-            W::S(SDisc::new(watcher_desc.to_instance(), &svc, 120).map_err(|e| format!("watcher: {:?}", e))?)
-        } else {
-            W::A(rt.block_on(async { ADisc::new(watcher_desc.to_instance(), &svc, 120) }).map_err(|e| format!("watcher: {:?}", e))?)
+        let start = |inst: simple_mdns::InstanceInformation, asynchronous: bool, sc: Option<NetworkScope>, who: &str| -> Result<W, String> {
+            Ok(match (asynchronous, sc) {
+                (false, None) => W::S(SDisc::new(inst, &svc, 120).map_err(|e| format!("{}: {:?}", who, e))?),
+                (false, Some(sc)) => W::S(SDisc::new_with_scope(inst, &svc, 120, None, sc).map_err(|e| format!("{}: {:?}", who, e))?),
+                (true, None) => W::A(rt.block_on(async { ADisc::new(inst, &svc, 120) }).map_err(|e| format!("{}: {:?}", who, e))?),
+                (true, Some(sc)) => W::A(rt.block_on(async { ADisc::new_with_scope(inst, &svc, 120, None, sc) }).map_err(|e| format!("{}: {:?}", who, e))?),
+            })
         };
+        let watcher = start(watcher_desc.to_instance(), mode != 0, scope_of(true), "watcher")?;
         std::thread::sleep(Duration::from_millis(gap_ms));
-        let peer = if mode == 1 {
-            W::A(rt.block_on(async { ADisc::new(d.to_instance(), &svc, 120) }).map_err(|e| format!("peer: {:?}", e))?)
-        } else {
-            W::S(SDisc::new(d.to_instance(), &svc, 120).map_err(|e| format!("peer: {:?}", e))?)
-        };
+        let peer = start(d.to_instance(), mode == 1, scope_of(false), "peer")?;
         let deadline = Instant::now() + Duration::from_secs(4);
         let want_w = vec![d.clone()];
         let want_p = vec![watcher_desc.clone()];
@@ -438,6 +455,99 @@ pub fn e2e_case_gap(k: usize, d: &Desc, mode: u8, gap_ms: u64) -> Result<Vec<Fin
         Err(pn) => Ok(vec![finding(format!("C15|e2e|{}", pn.sig()), format!("{:?}", pn), case)]),
         Ok(Err(e)) => Err(e),
         Ok(Ok(bad)) => Ok(bad.into_iter().map(|(t, x)| finding(format!("C15|{}|mode{}", t, mode), x, case.clone())).collect()),
+    }
+}
+
+/// A watcher built with a discovery channel that the application reads late (tokio: a bounded
+/// channel of capacity 1 left unread while two peers join; sync: an unbounded channel, or one
+/// whose receiver is dropped): once the application catches up, both peers are known exactly
+/// as advertised, and each was notified at least once.
+pub fn e2e_channel_case(k: usize, variant: u8) -> Result<Vec<Finding>, String> {
+    use simple_mdns::async_discovery::ServiceDiscovery as ADisc;
+    use simple_mdns::sync_discovery::ServiceDiscovery as SDisc;
+    use simple_mdns::NetworkScope;
+    use std::time::{Duration, Instant};
+    let svc = format!("_e2ech{}v{}._tcp.local", k, variant);
+    let case = json!({"kind": "e2e-channel", "k": k, "variant": variant});
+    let mk = |name: &str, last: u8| Desc { name: name.to_string(), ips: [format!("10.8.9.{}", last)].into_iter().collect(), ports: [7100u16 + last as u16].into_iter().collect(), attrs: BTreeMap::new() };
+    let (wd, bd, cd) = (mk("watcher", 1), mk("peerb", 2), mk("peerc", 3));
+    let rt = tokio::runtime::Builder::new_multi_thread().worker_threads(2).enable_all().build().map_err(|e| format!("{}", e))?;
+    let r = guarded(|| -> Result<Vec<(String, String)>, String> {
+        let mut bad = Vec::new();
+        enum W {
+            A(ADisc, tokio::sync::mpsc::Receiver<simple_mdns::InstanceInformation>),
+            S(SDisc, Option<std::sync::mpsc::Receiver<simple_mdns::InstanceInformation>>),
+        }
+        let mut watcher = match variant {
+            0 => {
+                let (tx, rx) = tokio::sync::mpsc::channel(1);
+                W::A(rt.block_on(async { ADisc::new_with_scope(wd.to_instance(), &svc, 120, Some(tx), NetworkScope::V4) }).map_err(|e| format!("watcher: {:?}", e))?, rx)
+            }
+            1 => {
+                let (tx, rx) = std::sync::mpsc::channel();
+                W::S(SDisc::new_with_scope(wd.to_instance(), &svc, 120, Some(tx), NetworkScope::V4).map_err(|e| format!("watcher: {:?}", e))?, Some(rx))
+            }
+            _ => {
+                let (tx, rx) = std::sync::mpsc::channel();
+                drop(rx);
+                W::S(SDisc::new_with_scope(wd.to_instance(), &svc, 120, Some(tx), NetworkScope::V4).map_err(|e| format!("watcher: {:?}", e))?, None)
+            }
+        };
+        std::thread::sleep(Duration::from_millis(150));
+        let _peer_b = SDisc::new(bd.to_instance(), &svc, 120).map_err(|e| format!("peer b: {:?}", e))?;
+        std::thread::sleep(Duration::from_millis(600));
+        let _peer_c = rt.block_on(async { ADisc::new(cd.to_instance(), &svc, 120) }).map_err(|e| format!("peer c: {:?}", e))?;
+        // both start-up announcements of peer c (at once and one second later) meet the unread channel
+        std::thread::sleep(Duration::from_millis(1500));
+        // the application catches up
+        let mut notified: Vec<String> = Vec::new();
+        let mut want = vec![bd.clone(), cd.clone()];
+        want.sort();
+        let deadline = Instant::now() + Duration::from_secs(4);
+        let mut got: Vec<Desc> = Vec::new();
+        while Instant::now() < deadline {
+            match &mut watcher {
+                W::A(_, rx) => {
+                    while let Ok(i) = rx.try_recv() {
+                        notified.push(i.unescaped_instance_name());
+                    }
+                }
+                W::S(_, Some(rx)) => {
+                    while let Ok(i) = rx.try_recv() {
+                        notified.push(i.unescaped_instance_name());
+                    }
+                }
+                W::S(_, None) => {}
+            }
+            let set = match &watcher {
+                W::A(a, _) => rt.block_on(a.get_known_services()),
+                W::S(s, _) => s.get_known_services(),
+            };
+            got = set.iter().map(Desc::of).collect();
+            got.sort();
+            let all_notified = matches!(&watcher, W::S(_, None)) || (notified.iter().any(|n| n == "peerb") && notified.iter().any(|n| n == "peerc"));
+            if got == want && all_notified {
+                break;
+            }
+            std::thread::sleep(Duration::from_millis(40));
+        }
+        if got != want {
+            bad.push(("e2e-channel-known-differs".to_string(), format!("after the application caught up with its discovery channel the watcher lists {:?}; advertised: {:?}", got, want)));
+        }
+        if !matches!(&watcher, W::S(_, None)) {
+            for p in ["peerb", "peerc"] {
+                if !notified.iter().any(|n| n == p) {
+                    bad.push(("e2e-channel-not-notified".to_string(), format!("no notification for {} arrived on the discovery channel (received: {:?})", p, notified)));
+                }
+            }
+        }
+        Ok(bad)
+    });
+    rt.shutdown_timeout(Duration::from_millis(100));
+    match r {
+        Err(pn) => Ok(vec![finding(format!("C15|e2e-channel|{}", pn.sig()), format!("{:?}", pn), case)]),
+        Ok(Err(e)) => Err(e),
+        Ok(Ok(bad)) => Ok(bad.into_iter().map(|(t, x)| finding(format!("C15|{}|variant{}", t, variant), x, case.clone())).collect()),
     }
 }
 
@@ -590,8 +700,68 @@ pub fn run(ctx: &Ctx) {
                 }
             }
         }
+        // other network scopes: IPv6 on both sides; an interface-specific IPv4 scope on both
+        // sides and on the watcher only (side by side, different service names)
+        if env_ok && why_not.is_none() {
+            let v6 = crate::engine::loopback_multicast6_works();
+            let v4if = crate::engine::multicast_interface_v4().is_some();
+            let mut jobs: Vec<(usize, u8, u8)> = Vec::new();
+            if v6 {
+                jobs.extend([(70usize, 0u8, 1u8), (71, 1, 1), (72, 2, 1)]);
+            }
+            if v4if {
+                jobs.extend([(73usize, 0u8, 2u8), (74, 1, 2), (75, 2, 3), (76, 0, 3)]);
+            }
+            let d0 = &picks[0];
+            let results: Vec<Result<Vec<Finding>, String>> = std::thread::scope(|s| {
+                let hs: Vec<_> = jobs.iter().map(|(k, mode, scope)| s.spawn(move || e2e_case_scoped(*k, d0, *mode, 120, *scope))).collect();
+                hs.into_iter().map(|h| h.join().unwrap_or_else(|_| Err("thread panicked".to_string()))).collect()
+            });
+            let mut scoped_ran = 0u64;
+            for r in results {
+                match r {
+                    Ok(f) => {
+                        scoped_ran += 1;
+                        ran += 1;
+                        t.evals += 1;
+                        t.nontrivial += 1;
+                        t.transitions += 2;
+                        t.outcome(if f.is_empty() { "e2e-faithful" } else { "e2e-unfaithful" });
+                        ctx.violations(f);
+                    }
+                    Err(e) => {
+                        // a scope the environment cannot serve is recorded, not judged
+                        ctx.set_extra("e2e_scope_note", json!(format!("a scoped service could not be started: {}", e)));
+                    }
+                }
+            }
+            ctx.set_extra("e2e_scopes", json!({"ipv6_multicast_probe": v6, "ipv4_multicast_interface": crate::engine::multicast_interface_v4().map(|a| a.to_string()), "cases": scoped_ran}));
+            ctx.space("end to end under other network scopes: NetworkScope::V6 on both sides (sync/sync, tokio/tokio, sync peer with tokio watcher) when an IPv6 multicast probe succeeds; NetworkScope::V4WithInterface(<interface multicast leaves through>) on both sides and on the watcher only", scoped_ran, "complete for the listed cases");
+        }
+        // discovery channels read late (three variants, different service names, side by side)
+        let mut chan_ran = 0u64;
+        if env_ok && why_not.is_none() {
+            let results: Vec<Result<Vec<Finding>, String>> = std::thread::scope(|s| {
+                let hs: Vec<_> = (0..3u8).map(|v| s.spawn(move || e2e_channel_case(60, v))).collect();
+                hs.into_iter().map(|h| h.join().unwrap_or_else(|_| Err("thread panicked".to_string()))).collect()
+            });
+            for r in results {
+                match r {
+                    Ok(f) => {
+                        chan_ran += 1;
+                        t.evals += 1;
+                        t.nontrivial += 1;
+                        t.transitions += 3;
+                        t.outcome(if f.is_empty() { "e2e-faithful" } else { "e2e-unfaithful" });
+                        ctx.violations(f);
+                    }
+                    Err(e) => why_not = Some(format!("services could not be started: {}", e)),
+                }
+            }
+            ctx.space("end to end with a discovery channel read late: a tokio watcher with a bounded channel of capacity 1 left unread while a sync and a tokio peer join 0.6 s apart; a sync watcher with an unbounded channel; a sync watcher whose receiver was dropped; once the application catches up both peers are listed exactly as advertised and each was notified", chan_ran, "complete for the three variants");
+        }
         ctx.merge(t);
-        ctx.set_extra("e2e_stage", json!({"ran": ran > 0, "cases": ran, "reason": why_not}));
+        ctx.set_extra("e2e_stage", json!({"ran": ran > 0, "cases": ran + chan_ran, "reason": why_not}));
         ctx.space("end to end over loopback multicast: a real watcher and a real peer (sync/sync, tokio/tokio, sync peer with tokio watcher) per instance description; each side must come to list exactly the other's instance; also with the peer joining after the watcher's start-up announcements (late joiner, learns from the reply to its own query)", ran, "complete for the listed descriptions");
     }
     // escape / unescape
@@ -671,8 +841,9 @@ pub fn replay(case: &Value) -> Vec<Finding> {
             Ok(ev) => check_history(&ev),
             Err(e) => vec![finding("C15|replay-unreadable", format!("{}", e), case.clone())],
         },
+        "e2e-channel" => e2e_channel_case(case["k"].as_u64().unwrap_or(0) as usize + 500, case["variant"].as_u64().unwrap_or(0) as u8).unwrap_or_default(),
         "e2e" => match serde_json::from_value::<Desc>(case["desc"].clone()) {
-            Ok(d) => e2e_case_gap(case["k"].as_u64().unwrap_or(0) as usize + 500, &d, case["mode"].as_u64().unwrap_or(0) as u8, case["gap_ms"].as_u64().unwrap_or(120)).unwrap_or_default(),
+            Ok(d) => e2e_case_scoped(case["k"].as_u64().unwrap_or(0) as usize + 500, &d, case["mode"].as_u64().unwrap_or(0) as u8, case["gap_ms"].as_u64().unwrap_or(120), case["scope"].as_u64().unwrap_or(0) as u8).unwrap_or_default(),
             Err(_) => vec![],
         },
         "escape" => check_escape(case["s"].as_str().unwrap_or("")),
